@@ -12,6 +12,7 @@ DECIDED = ("R1 receive filter: Udp::receive_from_network enqueues (try_send) onl
 NOT_DECIDED = "routing-class selection as behaviour, exactly-once per destination on healthy links, wildcard / localhost matching semantics."
 DECIDED += "; R8 source / destination are never swapped on the UDP send path (broadcast and multicast fan-out included) and send_loopback builds Envelope{src, dst} in parameter order; R9 exhaustive scan of MulticastGroups::leave_all"
 DECIDED += "; R10 a datagram parked outside the bounded queue keeps its slot; R11 group membership is evaluated at receipt (recorded finding D12)"
+DECIDED += '; R12 a multicast group is dropped only when its member set is empty, and the broadcast / multicast fan-out of UdpSocket::send visits every address (left only on exhaustion or with an error for the caller)'
 ASSUMPTIONS = ["mpsc::Sender::try_send either enqueues or returns the value"]
 
 RFN = "turmoil::host::Udp::receive_from_network"
